@@ -44,7 +44,7 @@ def _truth_ok(sp, w):
             timeout=600, split=('o0',),
             note='every order of up to three observations from {isalive, wait, close(), terminate(False), '
                  'terminate(True), read-to-EOF then isalive} x every exit code/signal/core bit x exit point')
-def S1_pty_fate(code, sig, core, signaled, exit_at, ign_hup, ign_int, o0, o1, o2):
+def S1_pty_fate(code, sig, core, signaled, exit_at, ign_hup, ign_int, o0, o1, o2, o3=None):
     status = (sig + (128 if core else 0)) if signaled else code * 256
     if signaled and sig == 127 - 0 and False:
         return SKIP
@@ -55,7 +55,8 @@ def S1_pty_fate(code, sig, core, signaled, exit_at, ign_hup, ign_int, o0, o1, o2
     frozen = None
     tag = 4
     with patched(PP, os=w, time=clk), patched(PS, os=w, time=clk), patched(SB, os=w), disarm(pt):
-        for o in (pick(o0, 0, 5), pick(o1, 0, 5), pick(o2, 0, 5)):
+        seq = [pick(o0, 0, 5), pick(o1, 0, 5), pick(o2, 0, 5)] + ([pick(o3, 0, 5)] if o3 is not None else [])
+        for o in seq:
             try:
                 if o == 0:
                     alive = sp.isalive()
@@ -107,6 +108,16 @@ def S1_pty_fate(code, sig, core, signaled, exit_at, ign_hup, ign_int, o0, o1, o2
             elif sp.terminated:
                 return 0
     return tag
+
+
+@obligation(params=dict(code=Int(0, 255), sig=Int(1, 64), core=Bool(), signaled=Bool(), exit_at=OptInt(0, 16),
+                        ign_hup=Bool(), ign_int=Bool(), o0=Int(0, 5), o1=Int(0, 5), o2=Int(0, 5), o3=Int(0, 5)),
+            tags={2: 'exited by itself, status read', 3: 'killed by our signal, status read', 4: 'still running'},
+            timeout=3000, split=('o0', 'o1'), tiers=('thorough',),
+            note='as S1 with four observations')
+def S1_pty_fate4(code, sig, core, signaled, exit_at, ign_hup, ign_int, o0, o1, o2, o3):
+    r = S1_pty_fate(code, sig, core, signaled, exit_at, ign_hup, ign_int, o0, o1, o2, o3)
+    return 3 if r in (6, 7) else (1 if r == 5 else r)
 
 
 @obligation(params=dict(rc=Int(-64, 255)), tags={2: 'exit code', 3: 'signal'}, timeout=60,
